@@ -658,6 +658,39 @@ def run(ctx):
         raise AnalysisError("create_gantt_chart_frames: frame loop (dispatch + savefig) not recognised")
     lp = loops[0]
     okc = True
+    # every non-raising path reaches the frame loop: an early `return` before
+    # it (frames "already there", a cache of rendered directories ...) lets
+    # whatever files are on disk stand for this history's frames
+    early = []
+    blk, anc = None, lp
+    while anc is not frames.node:
+        par = frames.module.parents.get(anc)
+        if par is None:
+            break
+        for fld in ("body", "orelse", "finalbody"):
+            b_ = getattr(par, fld, None)
+            if isinstance(b_, list) and any(x is anc for x in b_):
+                for st_ in b_[: [i for i, x in enumerate(b_) if x is anc][0]]:
+                    for x in ast.walk(st_):
+                        if isinstance(x, ast.Return) and not isinstance(st_, (ast.FunctionDef, ast.ClassDef)):
+                            early.append((st_, x))
+        if isinstance(par, ast.If) and any(x is anc for x in par.orelse) and any(isinstance(x, ast.Return) for y in par.body for x in ast.walk(y)):
+            # guard clauses are turned into if/else by the normaliser: `if c: return` + rest
+            early.append((par, next(x for y in par.body for x in ast.walk(y) if isinstance(x, ast.Return))))
+        anc = par
+    for st_, ret_ in early:
+        test_txt = ast.unparse(st_.test) if isinstance(st_, ast.If) else ""
+        hist_names = {p_ for p_ in frames_raw.params if "history" in p_}
+        if isinstance(st_, ast.If) and any(h in test_txt for h in hist_names) and ("not " in test_txt or "len(" in test_txt and "== 0" in test_txt) and "(" not in test_txt.replace("len(", "").replace("not (", ""):
+            continue  # an empty history has no frames
+        okc = False
+        chk.violation(
+            "R20.c", frames_raw, ret_,
+            f"create_gantt_chart_frames can return before producing any frame (`{test_txt[:70] or ast.unparse(st_)[:70]}`): the files already in "
+            "the frames directory - possibly those of another history of the same length - are then taken for this history's frames",
+            loc=frames.loc(ret_),
+        )
+        break
     itx = ctx.norm.xexpr(frames, lp.iter)
     is_enum = isinstance(itx, ast.Call) and isinstance(itx.func, ast.Name) and itx.func.id == "enumerate" and itx.args
     counter_form = None
